@@ -1,6 +1,6 @@
 (* C02 — Standard non-overlapping search: earliest-ending match, then restart after it. *)
 From DV Require Import Model.Base Model.Nfa Model.BwBuild Model.BwSearch Model.Api Model.Spec
-     Model.Cert Proofs.BwCert Theory.SpecAdequacy Model.Utf8 Model.CwBuild Proofs.Utf8Props Proofs.CwCert.
+     Model.Cert Proofs.BwCert Theory.SpecAdequacy Model.Utf8 Model.CwBuild Proofs.Utf8Props Proofs.CwCert Proofs.TrieInv Proofs.BuiltAutomata.
 Local Open Scope N_scope.
 
 Theorem bw_find_correct :
@@ -43,3 +43,13 @@ Example c02_hypotheses_met :
   | _ => False
   end.
 Proof. vm_compute. split; reflexivity. Qed.
+
+(* C02 for the byte-wise variant with no certificate hypothesis (builder theorem, see C01) *)
+Theorem bw_find_correct_for_every_built_automaton :
+  forall (V : Type) (veqb : V -> V -> bool), (forall a b, veqb a b = true <-> a = b) ->
+  forall nfb (pvs : list (list N * V)) (A : bw_automaton V),
+    (forall p v, In (p, v) pvs -> Forall (fun b => b < 256) p) -> 4 * total_len V pvs <= U32_MAX - 1 ->
+    bw_build_with_values V Standard nfb pvs = Ok A ->
+  forall h : list N, Forall (fun b => b < 256) h -> bw_find_iter V A h = Ok (spec_find V pvs h).
+Proof. exact built_find. Qed.
+Print Assumptions bw_find_correct_for_every_built_automaton.
